@@ -465,7 +465,6 @@ package ucfg
 //@ func (idxField).SetValue
 //@ props C07 C12 C20
 //@ requires opts != nil && elem != nil && v != nil
-//@ requires opts.maxIdx < 9223372036854775807
 //@ requires typeof(elem) == cfgSub ==> elem.(cfgSub).c != nil && elem.(cfgSub).c.fields != nil
 //@ ensures [bound] result == nil ==> 0 <= i.i && i.i <= old(opts.maxIdx)
 //@ ensures [reject] !(0 <= i.i && i.i <= old(opts.maxIdx)) ==> result != nil
